@@ -106,7 +106,9 @@ func (p *AV1Payloader) Payload(mtu uint16, payload []byte) (payloads [][]byte) {
 
 			if needNewPacket {
 				newSequence = false
-				currentPacketOBUHeader = nil
+				// the new packet starts with the current OBU: keep its layer ids (if any)
+				// so that the next OBU is compared against them
+				currentPacketOBUHeader = obuHeader.ExtensionHeader
 			}
 		}
 
